@@ -24,7 +24,8 @@ RULE = (
     "elim_vars_by_refining/relaxing, optimize, get_variable_bounds, to_machine_dict, from_dict, to_dict, from_strings, parse, "
     "is_empty, contains_behavior, evaluate, list union/difference, compound-contract merge / == / membership / to_dict, file "
     "write+read in both representations; argument tuples = every admissible tuple from a typed pool (contracts, term lists, "
-    "tactic-order lists, keep lists, strings, dictionaries) seeded with 6 contracts, 4 lists, 3 order lists, 3 keep lists; "
+    "tactic-order lists, keep lists, strings, dictionaries) seeded with 8 contracts, 6 lists (incl. look-alike pairs that differ only "
+    "beyond the 4th significant digit, the precision of the printed form), 3 order lists, 3 keep lists; "
     "results are added to the pool (construction depth: quick 2 layers with <=6 new contracts/lists per layer, thorough 4 "
     "layers with <=16), so later calls run on objects produced by earlier ones. Each worker process is one long session "
     "(history) executing its shard of the transitions in order, followed by a pair-adjacency history in which every ordered "
@@ -137,6 +138,11 @@ def seed_pool():
     P["C:top"] = C.from_strings(["i <= 1", "-i <= 0"], ["p <= 9", "-p <= 4"], ["i"], ["p"])
     P["C:shr"] = C.from_strings([], ["q - i <= 0", "q + i <= 4"], ["i"], ["q"])
     P["C:fb"] = C.from_strings([], ["o - p <= 1"], ["p"], ["o"])
+    # look-alikes: pairs of pool members that differ only beyond the 4th significant digit (the precision of the printed form)
+    P["C:nd1"] = C.from_strings(["i <= 10001"], ["o - 1.23412i <= 0", "o <= 20000"], ["i"], ["o"])
+    P["C:nd2"] = C.from_strings(["i <= 10002"], ["o - 1.23444i <= 0", "o <= 20000"], ["i"], ["o"])
+    P["L:nd1"] = plist([[{"x": 1}, 10.00390625], [{"x": -1, "y": 1}, 0]])
+    P["L:nd2"] = plist([[{"x": 1}, 10.0], [{"x": -1, "y": 1}, 0]])
     P["L:red"] = plist([[{"x": 1}, 1], [{"x": 1}, 2], [{"x": 1, "y": 1}, 3], [{"y": -1}, 0]])
     P["L:ctx"] = plist([[{"y": 1}, 1], [{"y": -1, "z": 1}, 0]])
     P["L:xz"] = plist([[{"x": 1, "z": -1}, 0], [{"z": 1}, 2]])
@@ -244,6 +250,16 @@ def arg_value(pool, name):
 # ------------------------------------------------------------------ one worker = one long session
 def warmup():
     """touch every lazily initialised path once (grammar streamlining, regex compilation, sympy/scipy imports)"""
+    from pacti.terms.polyhedra.serializer import polyhedral_termlist_from_string
+
+    # every production of the grammar once: exponents with both signs, '.5', '2.', parenthesised arithmetic with all four
+    # operators, '*', nested parentheses, absolute values with and without coefficient, chains, both equality spellings
+    for text in ["1e+04 x - 2.5E-3 y <= .5e1", "(1/2)x + (2*3 - 1) y >= -(4 + 2.)", "2*(x - 3(y + 1)) + (z) = 1", "x == y", "a <= b <= c",
+                 "a >= 2|b - c| + |d| >= -1", "+ 3 |x| + (|y| - z) <= 7e0", "2(|x| + y) - (x - (y)) <= 1E1", "x <= 1e", "-|x| <= 1", "x + + y <= 1"]:
+        try:
+            polyhedral_termlist_from_string(text)
+        except Exception:  # noqa
+            pass
     P = seed_pool()
     for op, args in [("parse", ("S:e1",)), ("parse", ("S:e2",)), ("parse", ("S:bad",)), ("compose", ("C:prod", "C:cons", "K:none", "B:True")),
                      ("quotient", ("C:top", "C:prod")), ("optimize", ("C:prod", "S:obj", "B:True")), ("to_dict", ("C:cons",)),
